@@ -819,6 +819,26 @@ func (fr *frame) lookupName(name string, at *ssa.BasicBlock, inclusive bool, phi
 		}
 		return val, true
 	}
+	// variables that live in a cell (address taken / captured by a closure): read the cell
+	if at != nil {
+		var cell *ssa.Alloc
+		n := 0
+		for _, blk := range fr.fn.Blocks {
+			for _, ins := range blk.Instrs {
+				if a, ok := ins.(*ssa.Alloc); ok && a.Comment == name {
+					cell = a
+					n++
+				}
+			}
+		}
+		if n == 1 {
+			if _, translated := fr.vals[cell]; translated && (cell.Block() == at || cell.Block().Dominates(at)) {
+				if v, ok := resolve(cell, true); ok {
+					return v, true
+				}
+			}
+		}
+	}
 	if at != nil {
 		b := at
 		first := true
@@ -839,6 +859,13 @@ func (fr *frame) lookupName(name string, at *ssa.BasicBlock, inclusive bool, phi
 				binds := fr.dbg[b]
 				for i := len(binds) - 1; i >= 0; i-- {
 					if binds[i].name == name {
+						// a variable that lives in a cell is always read through the cell: value
+						// bindings are snapshots that go stale when the cell is written
+						if cell, ok := fr.cellOf[binds[i].obj]; ok {
+							if v, ok := resolve(cell, true); ok {
+								return v, true
+							}
+						}
 						if v, ok := resolve(binds[i].v, binds[i].isAddr); ok {
 							return v, true
 						}
